@@ -163,6 +163,25 @@ func BiMap[S, A, B any](h *H, what string, l optics.Lens[S, B], addr func(*S) *A
 		h.Failf("%s: PutPut violated: field holds %#v, want %#v %s", what, *focus, a2, d)
 		return
 	}
+	// boundary values of slice-typed views: the nil slice and the empty, non-nil slice are different values
+	if bt.Kind() == reflect.Slice {
+		for _, bv := range []reflect.Value{reflect.Zero(bt), reflect.MakeSlice(bt, 0, 0), reflect.MakeSlice(bt, 0, 3)} {
+			b := bv.Interface().(B)
+			if !reflect.DeepEqual(fmap(cmap(b)), b) {
+				continue // the conversions are not inverse to each other on this value: outside the statement
+			}
+			ab := cmap(b)
+			l.Put(p, b)
+			if !reflect.DeepEqual(*focus, ab) {
+				h.Failf("%s: Put(%#v) must store cmap(b)=%#v, field holds %#v", what, b, ab, *focus)
+				return
+			}
+			if got := l.Get(p); !reflect.DeepEqual(got, b) {
+				h.Failf("%s: PutGet violated on a boundary value: Get after Put(%#v) returned %#v", what, b, got)
+				return
+			}
+		}
+	}
 }
 
 // Getter: Put never writes, Get is f(field).
@@ -419,5 +438,32 @@ func Shared[S, A any](h *H, what string, l optics.Lens[S, A], addr func(*S) *A, 
 		if e := <-errs; e != "" {
 			h.Failf("%s: one lens value used by two goroutines on two different structures: %s", what, e)
 		}
+	}
+}
+
+// SameIsos: the slice of isomorphisms the caller handed to Morphism reads as before (same entries at the same places,
+// nil entries included).
+func SameIsos[S, T any](h *H, what string, now, kept []optics.Isomorphism[S, T]) {
+	if h.Failed() {
+		return
+	}
+	show := func(l []optics.Isomorphism[S, T]) string {
+		out := "["
+		for i, x := range l {
+			if i > 0 {
+				out += " "
+			}
+			if x == nil {
+				out += "nil"
+			} else if v := reflect.ValueOf(x); v.Kind() == reflect.Pointer {
+				out += fmt.Sprintf("iso@%x", v.Pointer())
+			} else {
+				out += "iso"
+			}
+		}
+		return out + "]"
+	}
+	if show(now) != show(kept) {
+		h.Failf("%s changed the slice of isomorphisms the caller passed: it was %s, it reads %s afterwards", what, show(kept), show(now))
 	}
 }
